@@ -643,12 +643,14 @@ pub(crate) mod verif_sem {
         #[kani::stub(alloc::alloc::alloc, crate::verif::common::stub_alloc)]
         #[kani::stub(alloc::alloc::dealloc, crate::verif::common::stub_dealloc)]
         #[kani::stub(alloc::alloc::realloc, crate::verif::common::stub_realloc)]
+        #[kani::stub(alloc::fmt::format, crate::verif::common::stub_format)]
         fn hist_c18_p2_n5() { let _ = hist::<NoopLock, _>(&mut KaniSrc, 2 | (2 << 2), 5, P18); }
         #[kani::proof]
         #[kani::unwind(5)]
         #[kani::stub(alloc::alloc::alloc, crate::verif::common::stub_alloc)]
         #[kani::stub(alloc::alloc::dealloc, crate::verif::common::stub_dealloc)]
         #[kani::stub(alloc::alloc::realloc, crate::verif::common::stub_realloc)]
+        #[kani::stub(alloc::fmt::format, crate::verif::common::stub_format)]
         fn hist_c18_p2_n4() { let _ = hist::<NoopLock, _>(&mut KaniSrc, 2 | (2 << 2), 4, P18); }
 
         macro_rules! hist_proof {
